@@ -480,6 +480,38 @@ func dateTimeCases(c *mc.Ctx, es []*envSpec, t time.Time, vzn string, tr *trInst
 	}
 }
 
+// isoPrecision reads off an ISO datetime or time text how precisely it shows the time: the number
+// of fraction digits after the seconds, else seconds, else minutes.
+func isoPrecision(text string) time.Duration {
+	rest := text
+	if i := strings.IndexByte(text, 'T'); i >= 0 {
+		rest = text[i+1:]
+	}
+	if len(rest) >= 8 && rest[2] == ':' && rest[5] == ':' {
+		if len(rest) > 9 && rest[8] == '.' {
+			n := 0
+			for j := 9; j < len(rest) && rest[j] >= '0' && rest[j] <= '9'; j++ {
+				n++
+			}
+			prec := time.Second
+			for ; n > 0 && prec > 1; n-- {
+				prec /= 10
+			}
+			return prec
+		}
+		return time.Second
+	}
+	return time.Minute
+}
+
+// truncateTo drops what a text of the given precision does not show, on the wall clock of t's zone.
+func truncateTo(t time.Time, prec time.Duration) time.Time {
+	if prec >= time.Minute {
+		return t.Add(-time.Duration(t.Second())*time.Second - time.Duration(t.Nanosecond()))
+	}
+	return t.Add(-time.Duration(t.Nanosecond() % int(prec)))
+}
+
 func absDur(d time.Duration) time.Duration {
 	if d < 0 {
 		return -d
@@ -609,7 +641,7 @@ func evalDateTime(c *mc.Ctx, es *envSpec, t time.Time, form string, tr *trInstan
 	}
 	pt := p.Native()
 	if form == "iso" {
-		want := t.Add(-time.Duration(t.Nanosecond() % 1000))
+		want := truncateTo(t, isoPrecision(text))
 		if !pt.Equal(want) {
 			diff := pt.Sub(want)
 			if voff%60 != 0 && diff == time.Duration(voff%60)*time.Second {
@@ -980,7 +1012,12 @@ func evalTime(c *mc.Ctx, es *envSpec, tod dates.TimeOfDay, form string) (string,
 	want := tod
 	switch {
 	case form == "iso":
-		want.Nanos -= want.Nanos % 1000
+		switch prec := isoPrecision(text); {
+		case prec >= time.Minute:
+			want.Second, want.Nanos = 0, 0
+		default:
+			want.Nanos -= want.Nanos % int(prec)
+		}
 	case es.unit == time.Minute:
 		want.Second, want.Nanos = 0, 0
 	default:
